@@ -227,7 +227,8 @@ def run(R):
     else:
         R.violation("C17.json", "print|serde", "JSON records are not produced by serde_json::to_string on a Map", [f.loc()])
     # route
-    fe = R.need_fn("sqlgrep::executor::FileExecutor::execute")
+    from . import rules_exec_loops as L0
+    fe = L0.exec_view(R, "sqlgrep::executor::FileExecutor::execute")
     from . import rules_exec_loops as L
     prs = L.calls_reaching(fe, r"^sqlgrep::executor::OutputPrinter::print$")
     ex = L.calls_reaching(fe, r"ExecutionEngine::execute$")
